@@ -566,10 +566,22 @@ type FuncSpec struct {
 	Unroll   map[int]int
 	Uses     []string
 	FilePkg  string // package of the contract file the spec was written in
+	Access    []AccessRule   // lock discipline: conditions on accesses to a struct field
+	CallReqs  map[string][]*Clause // extra preconditions at calls of a named callee
+	AfterWait []*Clause      // fork/join: assumed after sync.WaitGroup.Wait returns
+	GoReqs    bool
 	GhostParams []QVar                      // logical variables of the contract, bound by callers with `callghost`
 	CallGhost   map[string]map[string]Expr // callee short name -> ghost parameter -> expression in the caller
 	Claims   []*Clause // for `prove` blocks: stand-alone lemmas to be proved
 	Assumes  []*Clause // hypotheses of a `prove` block
+}
+
+type AccessRule struct {
+	Type, Field string
+	Write       bool
+	Cond        Expr
+	Src         string
+	Line        string
 }
 
 type GhostDecl struct {
@@ -608,16 +620,17 @@ type SpecSet struct {
 	Globals  []*Lemma
 	Files    []string
 	GhostVars map[string]GhostDecl
+	LockInvs  map[string]string // "<pkg>.<Type>.<field>" -> spec function over *Type
 }
 
 func newSpecSet() *SpecSet {
-	return &SpecSet{Funcs: map[string]*FuncSpec{}, SpecFns: map[string]*SpecFn{}, GhostVars: map[string]GhostDecl{}}
+	return &SpecSet{Funcs: map[string]*FuncSpec{}, SpecFns: map[string]*SpecFn{}, GhostVars: map[string]GhostDecl{}, LockInvs: map[string]string{}}
 }
 
 var clauseKeywords = map[string]bool{"func": true, "requires": true, "ensures": true, "modifies": true,
 	"loop": true, "inline": true, "props": true, "arith": true, "pure": true, "function": true, "writes": true,
 	"type": true, "spec": true, "lemma": true, "global": true, "trusted": true, "ghost": true, "allocs": true,
-	"skip": true, "end": true, "uses": true, "ghostvar": true, "prove": true, "claim": true, "given": true, "ghostparam": true, "callghost": true}
+	"skip": true, "end": true, "uses": true, "ghostvar": true, "prove": true, "claim": true, "given": true, "ghostparam": true, "callghost": true, "access": true, "callreq": true, "afterwait": true, "lockinv": true}
 
 // specLines extracts the //@ payload lines of a Go file, or all lines of a
 // .spec file.
@@ -915,6 +928,51 @@ func (ss *SpecSet) parseFile(path, pkg string) error {
 			} else {
 				cur.Assumes = append(cur.Assumes, c)
 			}
+		case "access":
+			// access <Type>.<field> read|write requires <expr>
+			f := strings.Fields(rest)
+			k := strings.Index(rest, " requires ")
+			if cur == nil || len(f) < 4 || k < 0 || !strings.Contains(f[0], ".") || (f[1] != "read" && f[1] != "write") {
+				return fail(fmt.Errorf("access <Type>.<field> read|write requires <expr>"))
+			}
+			e, err := parseExpr(rest[k+10:])
+			if err != nil {
+				return fail(err)
+			}
+			tf := strings.SplitN(f[0], ".", 2)
+			cur.Access = append(cur.Access, AccessRule{Type: tf[0], Field: tf[1], Write: f[1] == "write", Cond: e, Src: rest, Line: where})
+		case "callreq":
+			f := strings.Fields(rest)
+			k := strings.Index(rest, " requires ")
+			if cur == nil || len(f) < 3 || k < 0 {
+				return fail(fmt.Errorf("callreq <callee> requires <expr>"))
+			}
+			e, err := parseExpr(rest[k+10:])
+			if err != nil {
+				return fail(err)
+			}
+			if cur.CallReqs == nil {
+				cur.CallReqs = map[string][]*Clause{}
+			}
+			cur.CallReqs[f[0]] = append(cur.CallReqs[f[0]], &Clause{Kind: "callreq", Src: rest[k+10:], E: e, Line: where})
+		case "afterwait":
+			if cur == nil {
+				return fail(fmt.Errorf("clause outside func block"))
+			}
+			body := strings.TrimSpace(strings.TrimPrefix(rest, "assume"))
+			e, err := parseExpr(body)
+			if err != nil {
+				return fail(err)
+			}
+			cur.AfterWait = append(cur.AfterWait, &Clause{Kind: "afterwait", Src: body, E: e, Line: where})
+		case "lockinv":
+			// lockinv <Type>.<mutexField> = <specfn>
+			f := strings.Fields(rest)
+			if len(f) != 3 || f[1] != "=" || !strings.Contains(f[0], ".") {
+				return fail(fmt.Errorf("lockinv <Type>.<field> = <specfn>"))
+			}
+			ss.LockInvs[pkg+"."+f[0]] = f[2]
+			cur = nil
 		case "ghostparam":
 			f := strings.Fields(rest)
 			if cur == nil || len(f) != 2 {
